@@ -11,11 +11,12 @@
 (* observation record must say.                                             *)
 (***************************************************************************)
 EXTENDS Integers, Sequences, FiniteSets, SequencesExt, TLC, Json, TLCExt
-Scenarios == [api : {"receive", "call", "upgrade-receive"},
+Scenarios == [api : {"receive", "call", "upgrade-receive", "send"},
               how : {"cancel", "deadline", "precancelled"},
               ctxs : {"same", "other"},
               transport : {"unix", "tcp", "bridge"}]
-Wanted == {s \in Scenarios : s.api = "call" => s.ctxs = "same"}
+(* "send": a Send whose request does not fit the transport while the server is not reading (blocked write) *)
+Wanted == {s \in Scenarios : s.api \in {"call", "send"} => s.ctxs = "same"}
 VARIABLE l
 TraceLog == ndJsonDeserialize("trace.ndjson")
 Ev(e) == l <= Len(TraceLog) /\ TraceLog[l].ev = e /\ l' = l + 1
